@@ -54,7 +54,6 @@ def walk(st, acc):
             (acc['constants'] if x[0] == 'C' else acc['variables']).add(x)
     elif k == 'Q':
         acc['quantifiers'].append(st[1])
-        acc['variables'].add(st[2])
         walk(st[3], acc)
     else:
         acc['operators'].append(st[1])
@@ -120,6 +119,16 @@ def _task(task):
             want = ref_subst(st, pkey(new), pkey(old))
             if got != want:
                 viol('substitute', s, f'substitute({new}, {old}) = {s.substitute(new, old)}, but replacing exactly the occurrences of {old} gives structure {want}')
+                break
+            # the published collections of the RESULT must describe the result
+            res = s.substitute(new, old)
+            racc = walk(got, dict(atomics=set(), predicates=set(), constants=set(), variables=set(), operators=[], quantifiers=[]))
+            rgot = dict(constants={pkey(p_) for p_ in res.constants}, variables={pkey(p_) for p_ in res.variables},
+                        predicates={(p_.index, p_.subscript, p_.arity) for p_ in res.predicates},
+                        operators=[o.name for o in res.operators], quantifiers=[q.name for q in res.quantifiers])
+            bad = [k_ for k_ in rgot if rgot[k_] != racc[k_]]
+            if bad:
+                viol('substitute-attributes', s, f'after substitute({new}, {old}) the result {res} publishes .{bad[0]} = {rgot[bad[0]]}, a walk of its structure gives {racc[bad[0]]}')
                 break
         if type(s) is G.Quantified:
             for cst in params[:3]:
